@@ -113,7 +113,7 @@ def relativedelta (kw : Kw) : R TzStr.Delta :=
   let nly := kw.nlyearday.join.getD 0
   let yd := kw.yearday.join.getD 0
   let yday := if nly != 0 then nly else yd
-  let leap : Int := if nly == 0 && yd != 0 && yd > 59 then -1 else 0
+  let leap : Int := if nly == 0 && yd != 0 && yd > 59 && yd < 366 then -1 else 0
   if yday != 0 then
     match TzStr.ydayToMonthDay yday with
     | .ok (m, d) => .ok { month := some m, day := some d, weekday := wd, leapdays := leap, seconds := secs }
